@@ -206,6 +206,9 @@ func ParseRelative(refStr string) (Reference, error) {
 }
 
 func checkTag(s string) error {
+	if len(s) == 0 {
+		return fmt.Errorf("empty tag")
+	}
 	if len(s) > 128 {
 		return fmt.Errorf("tag too long")
 	}
